@@ -37,7 +37,15 @@ impl DiagnosticAction {
     }
 
     pub fn is_match(&self, is_disable: bool, range: &TextRange, code: &DiagnosticCode) -> bool {
-        if self.range.intersect(*range).is_none() {
+        // ranges that merely touch intersect in an empty range: that is not an overlap,
+        // unless the diagnostic itself is empty and starts inside the scope
+        let overlaps = match self.range.intersect(*range) {
+            Some(overlap) => {
+                !overlap.is_empty() || (range.is_empty() && range.start() < self.range.end())
+            }
+            None => false,
+        };
+        if !overlaps {
             return false;
         }
 
